@@ -126,6 +126,21 @@ pub fn alphabet_c12_typecodes() -> Vec<Ev> {
 
 /// C12 "the tracked set only ever shrinks through expiry": accounting letters of two aircraft interleaved with expiry
 /// calls while virtual time advances one second per event (so a record is 0..depth seconds old when prune runs)
+/// expiry calls with different thresholds inside one history (round 7c: a prune that memoises "nothing can expire
+/// before ..." from one call and consults it for the next, whatever its threshold)
+pub fn alphabet_c15_mixed() -> Vec<Ev> {
+    vec![
+        fr("a1.ident", enc::es_frame(17, 5, A1, enc::me_ident(4, 0, "AAA"))),
+        fr("a2.vel", enc::es_frame(17, 5, A2, enc::me_vel_kt(100, -200, 640))),
+        Ev::Wait(1_000_000_000),
+        Ev::Wait(4_000_000_000),
+        Ev::Prune(3600),
+        Ev::Prune(5),
+        Ev::Prune(1),
+        Ev::Prune(0),
+    ]
+}
+
 pub fn alphabet_c12_expiry() -> Vec<Ev> {
     let p1 = (35.2, -80.2);
     let mut v = vec![];
